@@ -22,11 +22,17 @@ func errorResponses(x *explore.X) {
 	// refusal goes to the client like every other failure)
 	secretsV := append(append([]string{}, secrets...), strings.Repeat("Lp9x", 75))
 	secret := secretsV[x.ChooseFree("secret", len(secretsV))]
-	socks := x.ChooseFree("upstream-scheme", 2) == 1 // 0: http proxy, 1: socks5 proxy
+	schemeK := x.ChooseFree("upstream-scheme", 4) // 0: http proxy, 1: socks5 proxy, 2/3: a PAC script that answers SOCKS4 / SOCKS (unsupported types)
+	socks := schemeK == 1
+	pacUnsupported := schemeK >= 2
 	fromTable := x.ChooseFree("password-from", 2) == 1 // 0: --proxy userinfo, 1: --credentials entry for the proxy
 	connect := x.ChooseFree("request", 2) == 1         // 0: GET through the upstream, 1: CONNECT through the upstream
 	fault := x.ChooseFree("fault", 7)
 	faults := []string{"dial refused", "dial black-holed", "upstream answers 403", "upstream answers 407", "upstream never answers", "upstream closes without answering", "upstream answers garbage"}
+	if pacUnsupported && (!fromTable || fault != 0) {
+		x.Outcome("inadmissible") // a PAC-selected proxy gets its password from the table; the request fails before any connection
+		return
+	}
 	if strings.Contains(secret, "@") && !fromTable {
 		x.Outcome("inadmissible")
 		return
@@ -37,7 +43,12 @@ func errorResponses(x *explore.X) {
 		scheme = "socks5"
 		faults = []string{"dial refused", "dial black-holed", "no acceptable method", "credentials rejected", "upstream never answers", "upstream closes without answering", "upstream answers garbage"}
 	}
-	if fromTable {
+	if pacUnsupported {
+		scheme = []string{"", "", "SOCKS4", "SOCKS"}[schemeK]
+		opts.PAC = `function FindProxyForURL(url, host) { return "` + scheme + ` up.test:8080"; }`
+		opts.Credentials = []string{"pxuser:" + secret + "@up.test:8080"}
+		faults[0] = "PAC result of an unsupported proxy type"
+	} else if fromTable {
 		opts.Upstream = scheme + "://up.test:8080"
 		opts.Credentials = []string{"pxuser:" + secret + "@up.test:8080"}
 	} else {
@@ -54,7 +65,9 @@ func errorResponses(x *explore.X) {
 	}
 	switch fault {
 	case 0:
-		w.Net.Plan["up.test:8080"] = simnet.Refuse
+		if !pacUnsupported {
+			w.Net.Plan["up.test:8080"] = simnet.Refuse
+		}
 	case 1:
 		w.Net.Plan["up.test:8080"] = simnet.Blackhole
 	}
